@@ -386,7 +386,7 @@ Section Invariant.
     apply andb_prop in Edep. destruct Edep as [Dp1 Dp2].
     apply negb_true_iff in Dp1. apply negb_true_iff in Dp2.
     destruct (keqb k1 k2 && negb (eqb N r (one N))) eqn:Esame; [discriminate|].
-    destruct (ltb N (one N) (nabs N r)); [discriminate|].
+    destruct (negb (leb N (nabs N r) (one N))); [discriminate|].
     set (l1' := mkLeaf (l_u l1) (l_df l1) (l_indep l1) (assoc_set (l_corr l1) k2 r) (l_ens l1) (l_cplx l1) (l_label l1)) in *.
     set (ls1 := assoc_set (s_leaves s) k1 l1') in *.
     destruct (assoc ls1 k2) as [l2b|] eqn:E2b; [|discriminate]. cbn [bind] in H.
@@ -519,14 +519,14 @@ Section Invariant.
   Lemma set_correlation_inv s r a b s' : Inv s -> set_correlation N s r a b = Ok s' -> Inv s'.
   Proof.
     intros HI. unfold set_correlation. destruct (eqb N r (zero N)); [intros H; injection H as <-; exact HI|].
-    destruct (node_df N s a) as [d1|]; [|discriminate]. cbn [bind].
-    destruct (if df_is_inf N d1 then (d2 <- node_df N s b;; Ok (df_is_inf N d2)) else Ok false) as [bi|]; [|discriminate].
-    cbn [bind]. destruct bi; [apply set_correlation_real_inv; exact HI|].
-    destruct (unode a); try discriminate.
-    destruct (leaf_of N s k) as [l1|]; [|discriminate]. cbn [bind].
-    destruct (l_indep l1); [discriminate|].
-    destruct (unode b); try discriminate.
-    destruct (kmem k0 (ens_of N s l1)); [apply set_correlation_real_inv; exact HI|discriminate].
+    destruct (unode a) as [|la|ka|ka] eqn:Ua; try discriminate;
+      destruct (unode b) as [|lb|kb|kb] eqn:Ub; try discriminate;
+      (destruct (node_df N s a) as [d1|]; [|discriminate]); cbn [bind];
+      (destruct (if df_is_inf N d1 then (d2 <- node_df N s b;; Ok (df_is_inf N d2)) else Ok false) as [bi|]; [|discriminate]);
+      cbn [bind]; (destruct bi; [apply set_correlation_real_inv; exact HI|]); try discriminate;
+      (destruct (leaf_of N s ka) as [l1|]; [|discriminate]); cbn [bind];
+      (destruct (l_indep l1); [discriminate|]); try discriminate;
+      (destruct (kmem kb (ens_of N s l1)); [apply set_correlation_real_inv; exact HI|discriminate]).
   Qed.
 
   (* ---------- ensembles ---------- *)
